@@ -1,2 +1,54 @@
-"""Per-property assumptions / not-covered notes copied into the evidence files."""
-PROPERTY_NOTES = {}
+"""Per-property assumptions / not-covered notes copied into the evidence files (see DESIGN.md sections 5, 7, 9)."""
+
+S = {
+    'S1': "S1 (SimPy): a process runs without interleaving between two of its yields",
+    'S2': "S2 (SimPy): yield env.timeout(d) resumes the process at now + d",
+    'S3': "S3 (SimPy): a process spawned by env.process starts at the current time before any process resumed by a timeout",
+    'S4': "S4 (SimPy): proc.triggered <=> the generator has returned; False right after env.process",
+    'S5': "S5 (SimPy): an exception leaving a segment aborts env.run",
+    'S6': "S6 (SimPy): run(until=a); run(until=b) executes the same events as run(until=b)",
+    'S7': "S7 (SimPy): events with equal time and priority run in creation order",
+}
+ENV_RUN = "env.run is modelled as an arbitrary finite sequence of process segments, each preserving the proved class / heap invariants (the segment rule); it is not itself verified"
+MACHINE_RUN = "Machine.run has an assumed contract (its body subtracts and re-adds task.io, a number for ingest tasks only): spawns exactly one do_work, net effect on the machine nil"
+ALG = "user scheduling algorithms are an abstract callee: may call the public Cluster API, returns an arbitrary task->machine mapping (Scheduling.run assumed contract); they do not write private fields of the actors or spawn processes"
+NX = "networkx (assumed): predecessors / successors / pred / nodes as an edge relation; topological_sort lists every node once with every edge forward; relabel_nodes is the image graph"
+NP = "numpy.random (assumed): default_rng(seed) is a pure function of seed, default_rng() is not; normal/poisson return arrays of the requested length (all equal to the mean when the spread is 0); a[a > x] keeps exactly the elements > x"
+PD = "pandas (assumed): DataFrame(list of dicts) has one row per element; concat adds row counts; the outer join of one-row frames has one row"
+STATIC = "static (SHADOW) planning cannot be imported here; plan-following and greedy algorithms are verified against hand-stated plan preconditions"
+
+PROPERTY_NOTES = {
+    'C01': dict(assumptions=[S['S1'], S['S3'], S['S4'], MACHINE_RUN, ALG,
+                             "stability of 'this allocation process holds machine m' under the segments of other processes follows from their proved frames (each moves only its own machine); the pairwise stability VCs are not generated"],
+                not_covered=["GreedySchedulingFromPlan (generator expression over the finished map) is not under contract"]),
+    'C02': dict(assumptions=[S['S1'], S['S3'], MACHINE_RUN, "list order is abstracted to multisets (positions only where a loop indexes a list)"],
+                not_covered=["'no reservation outstanding when a simulation ends' (needs a link between reservations and queued observations)"]),
+    'C03': dict(assumptions=[NX, S['S2'], "every in-tree algorithm iterates its own loops atomically (S1)"],
+                not_covered=["GreedySchedulingFromPlan.run", "the same-machine clause 'start >= recorded finish of the predecessor' (needs intra-step order, S7)"]),
+    'C04': dict(assumptions=[ENV_RUN, ALG, MACHINE_RUN, S['S1'], S['S3']],
+                not_covered=["termination (C05)", "'the task table has exactly one row per executed task' (pandas construction in finished_task_time_data / _generate_final_task_data is an assumed contract)"]),
+    'C06': dict(assumptions=[S['S2'], "float arithmetic exact", "the delay model's caller-side contract (result >= runtime) is proved under C15"],
+                not_covered=["monotonicity is the monotonicity of max(1, max(floor(w/s), floor(d/b))), stated in DESIGN.md and not a separate obligation"]),
+    'C07': dict(assumptions=[S['S1'], S['S2'], "observation durations and (rounded) data rates are whole numbers (entity typing invariant, checked at every write)"],
+                not_covered=["'free space never drops below zero': the code keeps no reserve for concurrently admitted observations (DESIGN F7); only the per-observation admission check is proved"]),
+    'C08': dict(assumptions=[S['S1'], S['S3'], "telescope_use >= 0 (needs the sum of demands of running observations)"],
+                not_covered=["interference between observations admitted in the same timestep (DESIGN F9)", "'starts exactly on time when idle' lemma"]),
+    'C09': dict(assumptions=[S['S1'], NX, "the per-observation split given to BatchProcessing has whole numbers and min <= max (assumed precondition)"],
+                not_covered=["per-observation min/max from the configuration file never reach the algorithm (DESIGN F10)"]),
+    'C10': dict(assumptions=[S['S7'], NP, "sorted() with a key that contains the object's id/name is injective on tasks (ids unique, C14)",
+                             "the lemma 'deterministic segments + deterministic SimPy event order => equal tables' is a meta-step"],
+                not_covered=["relational (two-run) obligations are replaced by the absence of hash-ordered iteration, unseeded generators and wall-clock flows outside the *-algtime columns"]),
+    'C11': dict(assumptions=[S['S6'], ENV_RUN], not_covered=["equality of the trajectories themselves (reduced to S6)"]),
+    'C12': dict(assumptions=[PD, S['S7'], S['S3']], not_covered=["'state at the beginning of step t' (monitor-first order)"]),
+    'C13': dict(assumptions=[S['S1'], S['S3'], PD], not_covered=["causal order across processes is by the spawn relation (not a discharged obligation)"]),
+    'C14': dict(assumptions=[NX, "str() is injective on node identifiers and s + t determines t for a fixed prefix (assumed string axioms)",
+                             "_workflow_to_nx (file I/O) returns the graph described by the file"],
+                not_covered=["'tasks listed in a topological order' (list order is abstracted); static (SHADOW) planning"]),
+    'C15': dict(assumptions=[NP, "runtimes are whole numbers of timesteps, probabilities lie in [0, 1]"],
+                not_covered=["'never fails' for dist='uniform' (recorded known finding)"]),
+    'C16': dict(assumptions=["Config.__init__ (file I/O) is trusted; configured values are whole multiples of the unit; float arithmetic exact"], not_covered=[]),
+    'C17': dict(assumptions=[STATIC, "allocated_machine_id names a registered machine"], not_covered=[]),
+    'C18': dict(assumptions=["no second tier move is in progress on entry (transfer slots empty); summing per-step deltas over one move is a meta-step"],
+                not_covered=["zero-size observations (two recorded known findings)"]),
+    'C19': dict(assumptions=["under the class invariants of the four actors"], not_covered=[]),
+}
